@@ -38,6 +38,7 @@ type Frame struct {
 	loopFrames map[*ssa.BasicBlock]*loopFrame
 	allocSeq map[*ssa.Alloc]int
 	loopPre  map[*ssa.BasicBlock]*State
+	scopePos token.Pos // position at which names in the clause being evaluated are resolved (lexical scoping)
 	params   []Val
 	freeVars []Val
 	isGo     bool
@@ -131,7 +132,49 @@ func (f *Frame) lookupAddr(st *State, name string) (Val, bool) {
 	return Val{}, false
 }
 
+// scopedAlloc resolves name lexically: the variable that a Go expression written at f.scopePos would denote. This keeps
+// a clause bound to one variable when the function shadows a name in a nested scope (most-recently-executed would let an
+// invariant be checked on the inner variable and assumed for the outer one).
+func (f *Frame) scopedAlloc(name string) (*ssa.Alloc, bool) {
+	if !f.scopePos.IsValid() {
+		return nil, false
+	}
+	fn := f.fn
+	for fn.Parent() != nil {
+		fn = fn.Parent()
+	}
+	if fn.Pkg == nil || fn.Pkg.Pkg == nil {
+		return nil, false
+	}
+	inner := fn.Pkg.Pkg.Scope().Innermost(f.scopePos)
+	if inner == nil {
+		return nil, false
+	}
+	_, obj := inner.LookupParent(name, f.scopePos)
+	if obj == nil {
+		return nil, false
+	}
+	if _, isVar := obj.(*types.Var); !isVar {
+		return nil, false
+	}
+	for _, b := range f.fn.Blocks {
+		for _, ins := range b.Instrs {
+			if a, ok := ins.(*ssa.Alloc); ok && a.Comment == name && a.Pos() == obj.Pos() {
+				return a, true
+			}
+		}
+	}
+	// the object is a parameter, a captured variable or a package-level variable: not an Alloc of this function
+	return nil, true
+}
+
 func (f *Frame) findAlloc(name string) *ssa.Alloc {
+	if a, decided := f.scopedAlloc(name); decided {
+		if a != nil {
+			return a
+		}
+		// parameters that are reassigned have an Alloc named like them at the parameter's position; fall through
+	}
 	var best *ssa.Alloc
 	bestSeq := -1
 	for _, b := range f.fn.Blocks {
@@ -803,6 +846,25 @@ func (x *Exec) autoRangeInv(st *State, fr *Frame, hdr *ssa.BasicBlock) *T {
 	return And(Le(IntLit(-1), iv.T()), Or(Lt(iv.T(), lv.T()), Eq(iv.T(), IntLit(-1))))
 }
 
+// loopScopePos is a source position inside the loop statement but before anything its body declares: the first
+// positioned instruction of the header block, else of the loop's body in block order.
+func loopScopePos(fr *Frame, hdr *ssa.BasicBlock) token.Pos {
+	for _, ins := range hdr.Instrs {
+		if ins.Pos().IsValid() {
+			return ins.Pos()
+		}
+	}
+	best := token.NoPos
+	for b := range fr.loops.body[hdr] {
+		for _, ins := range b.Instrs {
+			if p := ins.Pos(); p.IsValid() && (!best.IsValid() || p < best) {
+				best = p
+			}
+		}
+	}
+	return best
+}
+
 func (x *Exec) checkInvariants(st *State, fr *Frame, lc *LoopContract, n int, kind string, hdr *ssa.BasicBlock) {
 	if g := x.autoRangeInv(st, fr, hdr); g != nil {
 		st.oblige(kind, fmt.Sprintf("L%d:auto-range", n), g, hdr.Instrs[0].Pos(), "range index within bounds (generated)", x.safetyProps())
@@ -810,6 +872,7 @@ func (x *Exec) checkInvariants(st *State, fr *Frame, lc *LoopContract, n int, ki
 	if lc == nil {
 		return
 	}
+	fr.scopePos = loopScopePos(fr, hdr)
 	env := x.envFor(st, fr)
 	env.loopPre = fr.loopPre[hdr]
 	x.bindLoopVars(env, st, fr, hdr)
@@ -838,6 +901,7 @@ func (x *Exec) assumeInvariants(st *State, fr *Frame, lc *LoopContract, n int, h
 	if lc == nil {
 		return
 	}
+	fr.scopePos = loopScopePos(fr, hdr)
 	env := x.envFor(st, fr)
 	env.loopPre = fr.loopPre[hdr]
 	x.bindLoopVars(env, st, fr, hdr)
